@@ -12,13 +12,17 @@ import (
 	"runtime/debug"
 	"strconv"
 	"strings"
+	"sync/atomic"
+	"time"
 
 	"github.com/yaricom/goNEAT/v4/experiment"
 	"github.com/yaricom/goNEAT/v4/neat"
 	"github.com/yaricom/goNEAT/v4/neat/genetics"
 	neatmath "github.com/yaricom/goNEAT/v4/neat/math"
 	"github.com/yaricom/goNEAT/v4/neat/network"
+	"github.com/yaricom/goNEAT/v4/neat/vmap"
 	"github.com/yaricom/goNEAT/v4/neat/vrand"
+	"github.com/yaricom/goNEAT/v4/neat/vtime"
 )
 
 // C17 — evolution is reproducible from the random seed.
@@ -267,6 +271,7 @@ func runC17Child(c *Ctx) {
 	if c.Tier == "" {
 		c.Tier = "quick"
 	}
+	c17Env(2)
 	for i, s := range c17SeededList(c) {
 		h, _, err := c17RunSeeded(s, false)
 		fmt.Fprintf(w, "SEEDED %d %s %v\n", i, hashesString(h), err)
@@ -285,6 +290,25 @@ func c17Explorer(c *Ctx, sc EpochScenario, prefix []int) (*Exec, *popRun) {
 	ex.Body = func(x *Exec) { run = runEpochBodyOpts(c, sc, 0, x, map[string]int64{}, c17Tweak, false) }
 	x := ex.RunOne(prefix)
 	return x, run
+}
+
+// c17Env gives an execution its environment: the iteration order of the maps the instrumenter could
+// identify and the clock. Executions that must agree are run in different environments, so that a
+// dependence on either shows on every run and not by luck: 0 = ascending keys, clock at 2001-01-01
+// advancing 1 ms per reading; 1 = descending keys, clock in 2033 advancing ~7 s per reading; 2 = keys
+// rotated by half, clock in 1999 advancing 1 ns per reading.
+func c17Env(k int) {
+	switch k % 3 {
+	case 0:
+		vmap.SetOrder(vmap.Ascending)
+		vtime.SetClock(time.Date(2001, 1, 1, 0, 0, 0, 0, time.UTC), time.Millisecond)
+	case 1:
+		vmap.SetOrder(vmap.Descending)
+		vtime.SetClock(time.Date(2033, 7, 19, 3, 14, 15, 926535897, time.UTC), 7000013*time.Microsecond)
+	case 2:
+		vmap.SetOrder(vmap.Rotated)
+		vtime.SetClock(time.Date(1999, 12, 31, 23, 59, 59, 999999000, time.UTC), time.Nanosecond)
+	}
 }
 
 func c17Garbage() {
@@ -347,6 +371,7 @@ func runC17(c *Ctx) {
 		// (ii) seeded runs: in-process repetition under different runtime settings, and the child's result
 		var runs int64
 		for i, s := range seeded {
+			c17Env(0)
 			h1, k1, err1 := c17RunSeeded(s, true)
 			// unrelated evolution and garbage in between
 			other := seeded[(i+1)%len(seeded)]
@@ -356,6 +381,7 @@ func runC17(c *Ctx) {
 			oldGC := debug.SetGCPercent(20 + 40*(i%3))
 			oldProcs := runtime.GOMAXPROCS(1 + i%4)
 			c17Verbose(true)
+			c17Env(1)
 			h2, k2, err2 := c17RunSeeded(s, true)
 			c17Verbose(false)
 			debug.SetGCPercent(oldGC)
@@ -369,6 +395,7 @@ func runC17(c *Ctx) {
 			}
 			// the same run with read-only dumps of the population before every turnover
 			c17Dumps = true
+			c17Env(2)
 			h3, k3, err3 := c17RunSeeded(s, true)
 			c17Dumps = false
 			runs++
@@ -385,9 +412,12 @@ func runC17(c *Ctx) {
 				c.Distinct(h)
 			}
 			// the same through Experiment.Execute (2 trials x 4 generations) on a zero-value experiment
+			c17Env(0)
 			e1, xerr1 := c17RunExperiment(s)
 			c17Garbage()
+			c17Env(1)
 			e2, xerr2 := c17RunExperiment(s)
+			c17Env(0)
 			runs += 2
 			if fmt.Sprint(xerr1) != fmt.Sprint(xerr2) || hashesString(e1) != hashesString(e2) {
 				c.ViolateOrd("C17/experiment-rerun-differs", int64(i), fmt.Sprintf("[%s] two Experiment.Execute runs in one process with the global source seeded identically hand different populations to the evaluator (first difference at evaluation #%d)", s, firstHashDiff(e1, e2)),
@@ -427,6 +457,7 @@ func runC17(c *Ctx) {
 			epochs += int64(len(r.hash))
 			_ = lastKeys
 		}
+		c17Env(0)
 		base := ex.RunOne(nil)
 		ex.Horizon = 20*len(base.Points) + 2000
 		// pass 1 records, pass 2 (after garbage and an unrelated scenario) compares
@@ -467,8 +498,10 @@ func runC17(c *Ctx) {
 		}
 		pass = 1
 		ex.Executions = 0
-		c17Verbose(true) // the second pass runs at log level "debug" (sinks silenced)
+		c17Verbose(true) // the second pass runs at log level "debug" (sinks silenced), in another environment
+		c17Env(1)
 		ex.Run()
+		c17Env(0)
 		c17Verbose(false)
 		execs += ex.Executions
 		if ex.Stopped {
@@ -480,6 +513,8 @@ func runC17(c *Ctx) {
 		c.Transitions += epochs
 		c.mu.Unlock()
 		c.Count("explorer_executions_incl_reruns", execs)
+		c.Count("map_ranges_executed_over_2+_keys_in_instrumented_code", atomic.SwapInt64(&vmap.Ranges, 0))
+		c.Count("map_ranges_with_keys_of_no_canonical_order", atomic.SwapInt64(&vmap.Unordered, 0))
 		if si%7 == 0 {
 			c.Sample(map[string]interface{}{"scenario": sc.String(), "draws_in_base_execution": len(base.Points)})
 		}
@@ -506,29 +541,37 @@ func runC17(c *Ctx) {
 	}
 	c.States = int64(len(c.distinct))
 	c.Rule = "(i) explorer mode: for every scenario (start genome incl. one with five disconnected sensors and random populations x configuration row x landscape x base policy; four node activators so that the activation roulette is drawn) EVERY execution within 1 deviation of the base policy is run twice in one process (second pass after garbage, a forced GC and an unrelated scenario, at log level debug with the sinks silenced; all runs of a process start from the same start genome objects) and the base executions a third time in a fresh process; the draw trace (kind and bound of every draw) and the bit-exact fingerprint of the population after construction and after each of 6-8 epochs must agree. (ii) real math/rand: seeds {0,1,42,VERIF_SEED}+k*1000003 x start genome x configuration x 10 epochs, run twice in-process from the same start genome object (unrelated evolution in between, different GOGC, GOMAXPROCS and log level), once with read-only dumps / verification of the population before every turnover, once in a second process, and twice through Experiment.Execute on a zero-value experiment. states = distinct population fingerprints, transitions = populations produced"
-	c.Assume("Go's per-loop randomisation of map iteration cannot be owned; dependence on it is caught because every execution is repeated (>= 2-3 times)")
-	c.Assume("wall-clock dependence is caught by the repetition as well (the neat packages do not import time)")
+	c.Count("map_ranges_executed_over_2+_keys_in_instrumented_code", atomic.SwapInt64(&vmap.Ranges, 0))
+	c.Count("map_ranges_with_keys_of_no_canonical_order", atomic.SwapInt64(&vmap.Unordered, 0))
+	c.Rule += ". ENVIRONMENTS: the executions that must agree run under different answers to the two environment choices the harness owns besides the random draws - the iteration order of every map the instrumenter can identify syntactically (range statements are rewritten to iterate over harness-ordered keys: ascending in the first run, descending in the second, rotated by half in the second process / the dump run) and the clock (package time is replaced by a shim whose clock the harness sets: 2001 + 1 ms per reading, 2033 + 7 s per reading, 1999 + 1 ns per reading); a dependence of the evolved population on either therefore shows on every run"
+	c.Assume("a map reached in a way the instrumenter cannot classify syntactically (through an interface, a function value, another package) keeps the runtime's order; dependence on it is then caught only because every execution is repeated (>= 2-3 times)")
+	c.Assume("memory addresses cannot be chosen by the harness; dependence on them is looked for by repeating executions after garbage, with other GC settings and in a second process")
 }
 
 func replayC17(c *Ctx, rp *Replay) (bool, string) {
 	startGenomes = map[string]*genetics.Genome{}
 	shareExecutors()
 	defer c17Verbose(false)
+	defer c17Env(0)
 	if rp.Scenario == "seeded" {
 		s := c17Seeded{Seed: int64(paramInt(rp, "seed")), Cfg: paramInt(rp, "cfg"), Start: paramStr(rp, "start"), Fit: paramInt(rp, "fit"), Epochs: paramInt(rp, "epochs")}
 		if v, ok := rp.Params["seed"].(float64); ok {
 			s.Seed = int64(v)
 		}
 		for k := 0; k < 5; k++ {
+			c17Env(0)
 			h1, k1, _ := c17RunSeeded(s, true)
 			c17Garbage()
 			c17Verbose(k%2 == 0)
+			c17Env(1 + k%2)
 			h2, k2, _ := c17RunSeeded(s, true)
 			c17Verbose(false)
 			if hashesString(h1) != hashesString(h2) {
 				return true, "two identically seeded runs differ: " + firstDiff(k1, k2)
 			}
+			c17Env(0)
 			e1, _ := c17RunExperiment(s)
+			c17Env(1 + k%2)
 			e2, _ := c17RunExperiment(s)
 			if hashesString(e1) != hashesString(e2) {
 				return true, "two identically seeded Experiment.Execute runs differ"
@@ -538,9 +581,11 @@ func replayC17(c *Ctx, rp *Replay) (bool, string) {
 	}
 	sc := scenarioFromParams(rp.Params)
 	for k := 0; k < 5; k++ {
+		c17Env(0)
 		a, _ := c17Explorer(c, sc, rp.Answers)
 		c17Garbage()
 		c17Verbose(k%2 == 0)
+		c17Env(1 + k%2)
 		b, _ := c17Explorer(c, sc, rp.Answers)
 		c17Verbose(false)
 		if a.EndHash != b.EndHash || a.TraceSig() != b.TraceSig() {
